@@ -218,8 +218,6 @@ class P(Prop):
         return 2000, case["ops"] + [[0, 4]]          # leaving the context = flush
 
     def canon(self, case, obs):
-        if case["kind"] == "filepool" and isinstance(obs, list) and len(obs) == 2:
-            return obs + [0]          # the model's answer: nothing may leak when a later path cannot be opened
         if case["kind"] == "twopools" and isinstance(obs, list):
             if obs and obs[0] == "two":
                 return obs[1]
